@@ -1,36 +1,36 @@
 import json, os, shutil, glob
-W='r'
+W='s'
 rows = {
- 'C01': ("per-dump table cache moved into the Streamer (kept across Stream calls)",
-         "a second Stream call in which a table id seen before belongs to another table",
-         "neutralised by fix 5b1215f: on the fixed tree a re-announcement under another name is looked up again and the agent's demo passes with the change; on the pre-fix tree the demo fails. (C15 `mapper-call` still notices the missing lookups of the second call.) The seed led to the discovery of the defect fixed by 5b1215f - see 14.1"),
- 'C02': ("events whose header server_id equals the replica's id skipped (fourth placement of this filter)",
-         "a unit stamped with the replica's own server id",
-         "C02: grouping, rollback-delivered"),
- 'C03': ("memory bound: an open transaction of 4096 events is committed at the current event and re-opened",
-         "one transaction with at least 4096 changes",
-         "C03: resume-suffix, crash-restart-exactly-once - **missed at first** (one history in 400 now holds a bulk transaction of 1030 or 4100 single-row statements on a narrow table of its own)"),
- 'C04': ("memory bound: after 1024 collected events the partial transaction is handed to the handler and the position advanced",
-         "a transaction of at least 1024 changes, an attempt that ends inside it, a retry",
-         "C04: reordered - **missed at first** (same bulk transactions)"),
- 'C05': ("'nothing received for 10 minutes' timer re-armed with Stop / drain / Reset: after it has fired once the drain blocks for ever",
-         "a master that is silent for more than 10 minutes and then sends one more event",
-         "C05: stream-hang - **missed at first** (an eighth of the attempts now contain a quiet period of 40 s, 11 min, 1 h or 25 h on the fake clock in the middle of the dump)"),
- 'C06': ("before-image decode error of an UPDATE row overwritten by the after-image call before it is checked",
-         "an UPDATE whose before image holds a value the decoder rejects while the after image is fine",
-         "C06: stream-nil-on-failure - **missed at first** (the undecodable JSON value was only ever inserted; it now also sits in a DELETE image, in the before image and in the after image of an UPDATE)"),
- 'C07': ("Stream returns before sending the dump request when the caller's context ended during the checksum SET round trip",
-         "cancellation while the master holds back its OK for the SET",
-         "judged NOT a violation: a Stream call whose caller has already cancelled need not ask for a dump (a cancel that lands during the handshake has the same effect on the unchanged tree). No check alarms, which is the right answer; kept as a benign case"),
- 'C08': ("packet copied only if the driver's slice has spare capacity (cap == len exactly when the packet ends at the end of the driver's read buffer)",
-         "a rows packet that ends exactly at the end of the driver's buffer, a retained value, a later read",
-         "C08: later-delivery-corrupted, mutated-after-delivery, panic"),
- 'C15': ("length prefix of long CHAR columns chosen by a bit test that is only right for 768..1023 bytes",
-         "a CHAR column of 256..767 bytes with a non-NULL value",
-         "C15: attribution, panic"),
- 'C17': ("a truncated packet is swallowed (nil) when the reader has already posted an error",
-         "a truncated packet that is the last one before an EOF / ERR / connection loss, with the reader ahead of the parser",
-         "C17: accepted-malformed - **missed at first**, two changes were needed: the master can now end the stream (EOF packet, ERR packet, close) right behind the malformed packet, and every second worker process runs with GOMAXPROCS=1, where a goroutine that hands an event over an unbuffered channel runs on until it blocks - the reader gets ahead of the parser inside one simulation step"),
+ 'C01': ("length prefix of the TABLE_MAP column-metadata block read as one byte",
+         "a table whose metadata block is longer than 250 bytes (>= 126 VARCHAR/CHAR/DECIMAL/BIT columns, ...)",
+         "C01: count, stream-result - **missed at first** (tables of 250..600 columns were only generated in the thorough tier of C01 and in C15; they are now part of C01 quick as well)"),
+ 'C02': ("IsXID() also true for XA_PREPARE events with one_phase = 1",
+         "an event of type 38 with a body of at least 13 bytes whose first byte is 1",
+         "C02: early-delivery, grouping (through the ignorable events of types 36..38 with random bodies)"),
+ 'C03': ("binlog format kept in the Streamer across Stream calls (opening ROTATE of a later call stripped by the stale checksum setting)",
+         "the same Streamer used again with another checksum setting in force",
+         "C03: resume-suffix (through the same-Streamer rewind of wave l and the connection-level checksum of wave q)"),
+ 'C04': ("reader drops 'heartbeats' by testing byte 4 of the raw packet (the top byte of the timestamp); same line as C02-p",
+         "an event whose timestamp has top byte 0x1b",
+         "C04: lost, reordered (through the arbitrary timestamps of wave p)"),
+ 'C05': ("no dump request and no reader when the context is already done on entry of startDumpFromBinlogPosition; the error channel is never closed",
+         "cancellation that lands during the checksum SET round trip",
+         "C05: error-blocks, goroutine-leak:caller"),
+ 'C06': ("a QUERY decode error is ignored when the partial result has a non-empty statement",
+         "a query event whose status-variable block ends inside a bounds-checked variable",
+         "C06: stream-nil-on-failure (through the undecodable-event variants of wave j)"),
+ 'C07': ("process-wide registry of running dumps' server ids: a second Streamer with the same id is moved to id+1",
+         "two Streamers with the same server id in one process whose Stream calls overlap",
+         "C07: server-id - **missed at first** (a sixth of the C07 runs now have a bystander: a second Streamer with the same server id that streams from a master of its own for the whole run)"),
+ 'C08': ("statement text of 1 KiB or more is a zero-copy string over the per-event buffer, and query/XID buffers go through a free list",
+         "a delivered statement of at least 1 KiB that the consumer keeps, two further packets",
+         "C08: mutated-after-delivery - **missed at first**, two gaps: statements were never longer than ~100 bytes (one in twelve now carries 1..6 KiB of text), and the delivery-time snapshot kept Go strings by reference (it now clones every string)"),
+ 'C15': ("the 'same table?' test of fix 5b1215f made case-insensitive",
+         "a table id taken over by a table whose name differs from the old one in letter case only",
+         "C15: attribution, wrong-table - **missed at first** (a third of the id takeovers are now by a case variant of the old name)"),
+ 'C17': ("reader logs NextPosition() of the event it is holding once the parser has not taken it for 30 s",
+         "a handler that takes 30 s or more while the reader holds a malformed packet shorter than 17 bytes",
+         "C17: panic - **missed at first** (an eighth of the attempts now have one handler call that takes 35 s, 65 s or 10 min on the fake clock)"),
 }
 for p,(chg,needs,caught) in rows.items():
     src=f'/tmp/wt-{p}-{W}/_seeded'
